@@ -1,8 +1,110 @@
-/- Driver handler of C09: protocol line (already split into tokens, without the leading "c09") -> answer. -/
+/-
+  Driver handler of C09: one line = one workbook with failure modes + one whole history.
+
+    c09 <mode> <n> <fspec>*n <op>*
+      mode  : plain | iter
+      fspec : <fail> <pre> <post> <cse> <spec>
+              fail = ok | unk | raise | at<k>   ;  pre/post = captured-message counts ; cse = 0|1
+              spec as in Drv/C01: I <val> | F ref j | F add a b | F cat k j*k | F sum k j*k | F cnt k j*k
+                                  | F idx r row col | R rows cols j*
+      op    : E i | S i <val>
+  Answer: one item per operation joined by ';' — the value token returned by `evaluate`, or
+  `!exc:pycel:UnknownFunction` / `!exc:pycel:FormulaEvalError` / `!exc:bare:RecursionError` /
+  `!exc:bare:AssertionError`; `ok`/`rej` for a `set_value`.
+  The model runs with the repaired error-message discipline and the repaired iterative `_eval`.
+  Trusted glue, not part of any theorem.
+-/
 import Pycel.Model.Proto
+import Pycel.Model.Failure
+import Pycel.Drv.C01
 namespace Pycel.Drv.C09
+open Pycel Pycel.Engine Pycel.EngineInst Pycel.Failure Pycel.Failure.Inst
+
+def parseMode (t : String) : Option Mode :=
+  if t = "ok" then some .ok
+  else if t = "unk" then some .unknown
+  else if t = "raise" then some .raises
+  else if t.startsWith "at" then (t.drop 2).toString.toNat?.map Mode.failAt
+  else none
+
+partial def parseFSpecs : Nat → List String → Option (List FSpec × List String)
+  | 0, ts => some ([], ts)
+  | k+1, m :: pre :: post :: cse :: ts => do
+    let mode ← parseMode m
+    let pre ← pre.toNat?
+    let post ← post.toNat?
+    let (sps, rest) ← Pycel.Drv.C01.parseSpecs 1 ts
+    let sp ← sps.head?
+    let (more, rest) ← parseFSpecs k rest
+    some (⟨sp, mode, pre, post, cse = "1"⟩ :: more, rest)
+  | _, _ => none
+
+inductive DOp where
+  | eval (a : Nat)
+  | set (i : Nat) (v : Val)
+
+partial def parseOps : List String → Option (List DOp)
+  | [] => some []
+  | "S" :: i :: v :: rest => do
+    let ops ← parseOps rest
+    some (.set (← i.toNat?) (← Val.dec? v) :: ops)
+  | "E" :: a :: rest => do
+    let ops ← parseOps rest
+    some (.eval (← a.toNat?) :: ops)
+  | _ => none
+
+def encFail : Fail → String
+  | .unknownFunction => "!exc:pycel:UnknownFunction"
+  | .formulaEval => "!exc:pycel:FormulaEvalError"
+  | .recursion => "!exc:bare:RecursionError"
+  | .assertion => "!exc:bare:AssertionError"
+
+def encR : R EV → String
+  | .ok v => Pycel.Drv.C01.encEV v
+  | .error e => encFail e
+
+/-- plain mode: `stepM` with the outputs -/
+def runPlain (S : Sem EV) : Model EV → List DOp → List String
+  | _, [] => []
+  | m, .eval a :: h =>
+    let r := evaluateX m.wb S .repaired a m.st
+    (if a < m.wb.n then encR r.1 else "!unknown-node") :: runPlain S ⟨m.wb, r.2⟩ h
+  | m, .set i v :: h =>
+    let ok := decide (i < m.wb.n) && m.st.core.built i && !decide (m.wb.kind i = .range)
+    (if ok then "ok" else "rej") :: runPlain S (stepM S .repaired eqvR m (.set i (.sc v))) h
+
+/-- iterative mode: one pass per evaluate (the generated workbooks reach their values in the first pass) -/
+def runIter (S : Sem EV) : Workbook × IState EV → List DOp → List String
+  | _, [] => []
+  | (wb, s), .eval a :: h =>
+    let r := evaluateI wb S .repaired true a s
+    (if a < wb.n then encR r.1 else "!unknown-node") :: runIter S (wb, r.2) h
+  | (wb, s), .set i v :: h =>
+    if i < wb.n then
+      let wb' := match wb.kind i with
+        | .formula => repairWb wb i
+        | _ => wb
+      "ok" :: runIter S (wb', { s with cells := update s.cells i ⟨.sc v, .sc v, false⟩ }) h
+    else "rej" :: runIter S (wb, s) h
 
 def handle : List String → String
+  | "c09" :: mode :: n :: rest =>
+    match n.toNat? with
+    | none => "!bad-n"
+    | some n =>
+      match parseFSpecs n rest with
+      | none => "!bad-spec"
+      | some (fs, rest) =>
+        match parseOps rest with
+        | none => "!bad-op"
+        | some ops =>
+          if !wfCheck (specsOf fs) && mode = "plain" then "!notwf" else
+          let wb := wbOf fs
+          let S := semOf fs
+          let inp := inputsOf (specsOf fs)
+          if mode = "plain" then ";".intercalate (runPlain S ⟨wb, initX inp⟩ ops)
+          else if mode = "iter" then ";".intercalate (runIter S (wb, initI inp) ops)
+          else "!bad-mode"
   | _ => "!bad-op"
 
 end Pycel.Drv.C09
